@@ -456,8 +456,8 @@ pub fn run(rep: &Report) {
     rep.assume("tree-additive default cost model: head cost (default 1) + sum of children, base value 1, container = sum of elements, saturating u64");
     let st = C07 { cfg: cfg(), name: "extraction" };
     rep.run_regressions(&st);
-    rep.explore(&st, rep.tier.pick(3000, 50_000), 600);
+    rep.explore(&st, rep.tier.pick(10_000, 50_000), 600);
     let big = C07 { cfg: cfg_big(), name: "extraction-saturating" };
     rep.run_regressions(&big);
-    rep.explore(&big, rep.tier.pick(2000, 30_000), 600);
+    rep.explore(&big, rep.tier.pick(6000, 30_000), 600);
 }
